@@ -907,11 +907,44 @@ func (g *Gen) pureApp(key string, args []Val, resT types.Type, st *State) Val {
 			argTerms = append(argTerms, c.S)
 		}
 	}
-	argSorts = append(argSorts, SInt)
+	argSorts = append(argSorts, SInt, SInt)
 	if heapIndependent(key) {
-		argTerms = append(argTerms, "0")
+		argTerms = append(argTerms, "0", "0")
 	} else {
-		argTerms = append(argTerms, st.tok.S)
+		// results may depend on memory written during this call only through an argument that points into it
+		var fresh []Term
+		known := true
+		for _, a := range args {
+			if a.Typ == nil {
+				known = false
+				continue
+			}
+			ly := layout(a.Typ)
+			if len(ly) != len(a.Comps) {
+				known = false
+				continue
+			}
+			for i, c := range ly {
+				switch c.Kind {
+				case KPtr, KSlicePtr, KIfacePay, KOpaque:
+					fresh = append(fresh, tCmp(">=", a.Comps[i], g.entryW))
+				}
+			}
+		}
+		ft := st.ftok
+		if ft.S == "" {
+			ft = st.tok
+		}
+		var second Term
+		switch {
+		case !known:
+			second = ft
+		case len(fresh) == 0:
+			second = intLit(0)
+		default:
+			second = tIte(tOr(fresh...), ft, intLit(0))
+		}
+		argTerms = append(argTerms, st.tok.S, second.S)
 	}
 	ly := layout(resT)
 	res := Val{Typ: resT}
